@@ -214,8 +214,11 @@ void poly<T, Degree, NbModuli>::set(non_uniform const& mode) {
 
   // upper_bound is below the moduli so we create the same mask for all the
   // moduli
-  value_type mask =
-      (1ULL << (int)(floor(log2(2*upper_bound-1)) + 1)) - 1;
+  // bit length of 2*upper_bound-1, counted on the integer: log2() of the converted
+  // double rounds up to the next integer just below a (large) power of two
+  int mask_bits = 0;
+  for (uint64_t v = 2*upper_bound-1; v != 0; v >>= 1) ++mask_bits;
+  value_type mask = (mask_bits < 64) ? (1ULL << mask_bits) - 1 : ~0ULL;
 
   if(amplifier == 1){
     for (unsigned int i = 0; i < degree; i++) {
